@@ -257,6 +257,17 @@ def result_reshape(f: Func, call: ast.Call) -> Tuple[Optional[str], Optional[ast
     the result is not reshaped (a vector result)."""
     par = getattr(call, "_parent", None)
     name = None
+    # the product may be reshaped in place: <table>.dot(x).reshape(...)
+    if isinstance(par, ast.Attribute) and par.attr == "reshape" and isinstance(getattr(par, "_parent", None), ast.Call) and par._parent.func is par:
+        n = par._parent
+        order = "C"
+        for k in n.keywords:
+            if k.arg == "order":
+                order = k.value.value if isinstance(k.value, ast.Constant) and k.value.value in ("C", "F") else None
+        p2 = getattr(n, "_parent", None)
+        if isinstance(p2, ast.Attribute) and p2.attr == "T" and order is not None:
+            order = "F" if order == "C" else "C"
+        return order, n
     if isinstance(par, ast.Assign) and len(par.targets) == 1 and isinstance(par.targets[0], ast.Name):
         name = par.targets[0].id
     if name is None:
